@@ -17,6 +17,7 @@ import (
 	sdk "github.com/cosmos/cosmos-sdk/types"
 	txtypes "github.com/cosmos/cosmos-sdk/types/tx"
 	"github.com/cosmos/cosmos-sdk/types/tx/signing"
+	sdkvesting "github.com/cosmos/cosmos-sdk/x/auth/vesting/types"
 	banktypes "github.com/cosmos/cosmos-sdk/x/bank/types"
 	"github.com/cosmos/cosmos-sdk/x/feegrant"
 	"github.com/ethereum/go-ethereum/common"
@@ -25,6 +26,7 @@ import (
 	haqqtypes "github.com/haqq-network/haqq/types"
 	evmtypes "github.com/haqq-network/haqq/x/evm/types"
 	feemarkettypes "github.com/haqq-network/haqq/x/feemarket/types"
+	vtypes "github.com/haqq-network/haqq/x/vesting/types"
 
 	"verif/harness/engine"
 	"verif/harness/world"
@@ -509,6 +511,67 @@ func (f *fixture) submit(kind string, v variant, refSeq uint64, delivered map[st
 	return "valid:accepted", true
 }
 
+func (f *fixture) foreignEvents(kind string, good variant, n0 uint64, res *engine.Result) {
+	w := f.w
+	const T = 3
+	S := w.Addrs[f.S]
+	restore := w.Branch()
+	defer restore()
+	delivered := map[string]bool{}
+	p := []string{"kind=" + kind, "t(n)"}
+	_, acc := f.submit(kind, good, n0, delivered, p, res)
+	res.Transitions++
+	if !acc {
+		res.HarnessErr = "C03 foreign-events family: the original transaction was not accepted"
+		return
+	}
+	ref := n0 + 1
+	seqOf := func() uint64 { return w.App.AccountKeeper.GetAccount(w.Ctx(), S).GetSequence() }
+	check := func(step string, p []string) {
+		res.Evaluations++
+		if got := seqOf(); got != ref {
+			res.AddViolation(engine.Violation{Signature: fmt.Sprintf("C03|kind=%s|case=foreign-event:%s|breach=sequence-rewound", kind, step),
+				What: "another module's message changed the signer's sequence", Path: p, Detail: map[string]any{"sequence": got, "want": ref}})
+		}
+		// the used transaction stays used (in a branch: a wrongly accepted replay must not disturb the rest)
+		undo := w.Branch()
+		f.submit(kind, good, ref, delivered, append(append([]string{}, p...), "t(n) again"), res)
+		undo()
+		res.Transitions++
+	}
+	// 1. a third party grants the signer vesting coins: the plain account becomes a vesting account
+	start := w.Header.Time.Add(-5 * time.Second)
+	grant := vtypes.NewMsgConvertIntoVestingAccount(w.Addrs[T], S, start, nil, sdkvesting.Periods{{Length: 10, Amount: sdk.NewCoins(sdk.NewInt64Coin(world.Denom, 1000))}}, false, false, nil)
+	fee := sdk.NewCoins(sdk.NewCoin(world.Denom, sdkmath.NewIntFromBigInt(new(big.Int).Mul(f.price, big.NewInt(3000000)))))
+	bz, err := w.CosmosTx(w.Ctx(), world.CosmosSpec{Key: w.Keys[T], Gas: 3000000, Fee: fee, Msgs: []sdk.Msg{grant}})
+	if err != nil {
+		panic(err)
+	}
+	if r := w.Deliver(bz); r.Code != 0 {
+		res.HarnessErr = "C03 foreign-events family: the third-party grant failed: " + firstLine(r.Log)
+		return
+	}
+	res.Transitions++
+	p = append(p, "grant(T->S)")
+	check("third-party-grant", p)
+	// 2. the schedule ends, the signer converts the account back (signed by the signer: one sequence)
+	w.VirtualNextBlock(time.Hour, nil, nil)
+	back, err := w.CosmosTx(w.Ctx(), world.CosmosSpec{Key: w.Keys[f.S], Gas: 3000000, Fee: fee, Msgs: []sdk.Msg{vtypes.NewMsgConvertVestingAccount(S)}})
+	if err != nil {
+		panic(err)
+	}
+	if r := w.Deliver(back); r.Code != 0 {
+		res.HarnessErr = "C03 foreign-events family: converting the account back failed: " + firstLine(r.Log)
+		return
+	}
+	res.Transitions++
+	ref++
+	p = append(p, "block(+1h)", "convertBack(S)")
+	check("convert-back", p)
+	res.Nontrivial["foreign-events|"+kind] = true
+	res.Outcomes["foreign-events"]++
+}
+
 func caseName(v variant) string {
 	n := v.name
 	if i := strings.IndexByte(n, '@'); i > 0 {
@@ -587,6 +650,14 @@ func Worker(shard, n int, tier string) *engine.Result {
 		// (c) batches: several Ethereum messages of two senders in one Cosmos envelope
 		if strings.HasPrefix(kind, "eth-") {
 			f.batches(kind, n0, shard, n, &idx, res, tier)
+		}
+		// (d) the account record is rewritten by other modules between the original and its replay:
+		// a third party turns the signer's account into a clawback vesting account (grant by
+		// MsgConvertIntoVestingAccount), later the signer converts it back; neither may rewind the
+		// sequence, and the used transaction stays used
+		idx++
+		if idx%n == shard {
+			f.foreignEvents(kind, good, n0, res)
 		}
 		// (b) orders
 		alpha := []variant{
